@@ -314,6 +314,7 @@ class FFTMTF:
                 of rays, wavelength, and F-number.
         """
         Q = self.grid_size / self.num_rays
-        dx = Q / (self.wavelength * self.FNO)
+        # frequency step 1 / (grid_size * psf pixel), in cycles/mm
+        dx = 1e3 * Q / (self.grid_size * self.wavelength * self.FNO)
 
         return dx
